@@ -75,6 +75,7 @@ func emit(fields ...string) {
 	defer emitMu.Unlock()
 	out.WriteString(strings.Join(fields, "\t"))
 	out.WriteByte('\n')
+	atomic.StoreInt64(&lastEmit, time.Now().UnixNano())
 	if len(fields) > 1 && fields[1] == "HANG" && fields[0] == "c07" {
 		// requests that never return leave goroutines and locks behind, and every further wait costs its
 		// whole deadline: two such reports settle the run (the trace so far is the replay)
@@ -88,6 +89,8 @@ func emit(fields ...string) {
 
 var hangs int
 var statsPath string
+var lastEmit int64        // UnixNano of the last trace line (watchdog in main.go)
+var inFlight atomic.Value // description of the request the harness is waiting for
 
 // stats collected for the evidence file
 var stats = map[string]int{}
@@ -332,6 +335,7 @@ func do(h http.Handler, rq Req) (resp Resp) {
 		}
 	}
 	w := httptest.NewRecorder()
+	inFlight.Store(rq.Method + " " + truncStr(target, 300) + " " + truncStr(fmt.Sprint(rq.Header), 200))
 	func() {
 		defer func() {
 			if p := recover(); p != nil {
@@ -340,6 +344,7 @@ func do(h http.Handler, rq Req) (resp Resp) {
 		}()
 		h.ServeHTTP(w, r)
 	}()
+	inFlight.Store("")
 	resp.Status = w.Code
 	// the headers as they stood when the status line went out: what a handler sets afterwards never
 	// reaches a client
